@@ -1,6 +1,6 @@
 (** Pinned statements of the C07 property theorems: compiled on every check, so a theorem cannot be
     weakened silently. *)
-From V Require Import Base.Util Gql.Ast Peg.Peg Gen.C07_grammar_gen C07.Builder C07.Model C07.AstEq C07.Spec C07.Proofs C07.Lexical C07.Strings C07.Numbers C07.Fuel C07.Shapes C07.Render C07.Properties.
+From V Require Import Base.Util Gql.Ast Peg.Peg Gen.C07_grammar_gen C07.Builder C07.Model C07.AstEq C07.Spec C07.Proofs C07.Lexical C07.Strings C07.Numbers C07.Fuel C07.Shapes C07.Render C07.RenderValues C07.RenderArgs C07.Properties.
 From V Require Import Peg.PegShape.
 From V Require Import Peg.PegProps.
 
@@ -84,6 +84,38 @@ Check (C07_parse_render_type : forall t pre rest file, wf_rty t = true -> follow
   runs gql_grammar true ANon (Call R_Type) (render_ty t ++ rest) i
        (Ok (rest, (i + slen (render_ty t))%N, [ty_tree t i]))
   /\ exists ty', build_type inp file (ty_tree t i) = BOk ty' /\ ty_erase ty' = erase_rty t).
+Check (C07_parse_render_value : forall v pre rest file, wf_val v = true -> follow_val rest ->
+  let inp := pre ++ render_val v ++ rest in
+  let i := slen pre in
+  runs gql_grammar true ANon (Call R_Value) (render_val v ++ rest) i
+       (Ok (rest, (i + slen (render_val v))%N, [val_tree v i]))
+  /\ exists v', build_value inp file (val_tree v i) = BOk v' /\ val_erase v' = erase_rval v).
+Check (C07_float_lex : forall ip fr ex rest sk i, wf_float ip fr ex = true -> int_follow_ok rest = true ->
+  let l := ip ++ fr ++ ex in
+  runs gql_grammar sk ANon (Call R_FloatValue) (l ++ rest) i (Ok (rest, (i + slen l)%N, [Pair R_FloatValue i (i + slen l)%N []]))
+  /\ runs gql_grammar sk ANon (Call R_IntValue) (l ++ rest) i Fail).
+Check (C07_parse_render_arguments : forall g0 args pre rest file, wf_args g0 args = true ->
+  let inp := pre ++ render_args g0 args ++ rest in
+  let i := slen pre in
+  runs gql_grammar true ANon (Call R_Arguments) (render_args g0 args ++ rest) i
+       (Ok (rest, (i + slen (render_args g0 args))%N, [args_tree g0 args i]))
+  /\ exists a, build_arguments inp file (args_tree g0 args i) = BOk a /\ args_erase a = erase_args args).
+Check (C07_parse_render_directive_args : forall g n ga g0 args pre rest file,
+  ws g = true -> is_name n = true -> ws ga = true -> wf_args g0 args = true ->
+  let i := slen pre in
+  let t := Pair R_Directive i (i + slen (dir_text1 g n ga g0 args))%N
+             [Pair R_Name (i + 1 + slen g)%N (i + 1 + slen g + slen n)%N [];
+              args_tree g0 args (i + 1 + slen g + slen n + slen ga)%N] in
+  runs gql_grammar true ANon (Call R_Directive) (dir_text1 g n ga g0 args ++ rest) i
+       (Ok (rest, (i + slen (dir_text1 g n ga g0 args))%N, [t]))
+  /\ exists d a, build_directive_fn (pre ++ dir_text1 g n ga g0 args ++ rest) file t = BOk d
+       /\ iname (dir_name d) = n /\ dir_args d = Some a /\ args_erase a = erase_args args).
+Check (C07_parse_render_directive_noargs : forall g n w pre k file,
+  ws g = true -> is_name n = true -> ws w = true -> at_token k -> no_paren_next k -> (w = [] -> not_name_cont_next k) ->
+  let i := slen pre in
+  let t := Pair R_Directive i (i + slen (dir_text0 g n w))%N [Pair R_Name (i + 1 + slen g)%N (i + 1 + slen g + slen n)%N []] in
+  runs gql_grammar true ANon (Call R_Directive) (dir_text0 g n w ++ k) i (Ok (k, (i + slen (dir_text0 g n w))%N, [t]))
+  /\ exists d, build_directive_fn (pre ++ dir_text0 g n w ++ k) file t = BOk d /\ iname (dir_name d) = n /\ dir_args d = None).
 Print Assumptions C07_positions_true.
 Print Assumptions C07_lone_cr_refuted.
 Print Assumptions C07_block_string_refuted.
@@ -103,3 +135,8 @@ Print Assumptions C07_never_out_of_fuel.
 Print Assumptions C07_parse_never_fuel.
 Print Assumptions C07_builder_shapes_ok.
 Print Assumptions C07_parse_render_type.
+Print Assumptions C07_parse_render_value.
+Print Assumptions C07_float_lex.
+Print Assumptions C07_parse_render_arguments.
+Print Assumptions C07_parse_render_directive_args.
+Print Assumptions C07_parse_render_directive_noargs.
